@@ -146,7 +146,7 @@ fn correspondence(ctx: &mut Ctx) {
         let rs = recs(&hs);
         // ---- op 1
         let wire = impl_encode(key, &hs);
-        let label = if hs.is_empty() { "trivial_no_headers" } else if oversize { "encode_seq_with_oversize" } else { "encode_seq" };
+        let label = if hs.is_empty() { "trivial_no_headers" } else if oversize { "outside-domain:encode_seq_with_oversize (size > 0x7FFFFF)" } else { "encode_seq" };
         match &wire {
             Some(w) => ctx.case(1, label, &[&key, &rs], &[&[0], w]),
             None => {
